@@ -280,7 +280,11 @@ class extract_visitor(NodeVisitor):
 
     def visit_Return(self, node):
         # type: (ast.Return) -> None
-        self.flow.scope.returns.append(node.value)  # type: ignore[attr-defined]
+        # a return outside a function is a syntax error at compile time, but the
+        # text parses: half-typed code must not make the analysis fail
+        returns = getattr(self.flow.scope, 'returns', None)
+        if returns is not None:
+            returns.append(node.value)
         self.generic_visit(node)
 
     def visit_ListComp(self, node):
